@@ -13,14 +13,24 @@
       Rust code);
     * parse_subgoal never does (infix operands, not(...)/time(...), built-in predicates);
     * the tokenizer never slices `chrs[start..i]` with `start > i`.
-  NOT PROVED (`_partial`): the token grouping stage of generate_goal / parse_rule
-  (group_tokens, group_and_tokens, group_or_tokens, token_tree_to_goal: `panic!` on a leaf
-  token that is not a subgoal or on a group without exactly one child) and the sufficiency of
-  a fuel linear in |s| (termination). Both are decided on every run by the correspondence
-  suite (random, mutated and ALL short strings through all eight entry points, outcome
+    * TERMINATION ("within bounded time ... never loops"): the model's outcome "out of fuel" — its rendering of
+      "does not return" — is proved impossible: a fuel of 3·|s|+3 suffices for parse_term (three units per
+      character: every recursive call is on a strictly shorter text), 3·|s|+4 for parse_subgoal, 3·|s| for
+      parse_complex / parse_function / parse_query; the tokenizer and group_tokens return with the fuel the
+      model gives them (the index grows with every iteration; a nested group_tokens call stops at or behind
+      the index it started from — the property that repair D18 established); for generate_goal and parse_rule
+      some fuel suffices for every input (structural recursion over the token tree, whose leaves are pieces
+      of the input). Every parser is monotone in its fuel (`Lemmas/ParseMono.lean`), so the outcome does not
+      depend on it. The fuel bounds the DEPTH of the recursion, not the total work: that the work is not
+      exponential (defect D18) is decided by the timed deep-nesting cases of the correspondence suite.
+  NOT PROVED (`_partial`): the token grouping stage of generate_goal / parse_rule never PANICS
+  (token_tree_to_goal: `panic!` on a leaf token that is not a subgoal or on a group without exactly one
+  child; needs the grammar of the token lists the tokenizer can produce). Decided on every run by the
+  correspondence suite (random, mutated and ALL short strings through all eight entry points, outcome
   classes ok / err / panic / timeout compared with the model) and by the no-panic oracle.
 -/
 import SuironVerif.Lemmas.ParseSafe
+import SuironVerif.Lemmas.ParseTerminates
 namespace Suiron.C18
 open Suiron.Parse
 
@@ -167,6 +177,40 @@ theorem parse_subgoal_never_panics (po : POps) : ∀ (f : Nat) (s : Text), parse
 
 /-- the tokenizer (first stage of generate_goal / parse_rule) never panics -/
 theorem tokenize_never_panics_partial (s : Text) : tokenize s ≠ .panic := tokenize_ne_panic' s
+
+/-! ### termination -/
+
+/-- parse_term returns: three units of fuel per character suffice -/
+theorem parse_term_terminates (po : POps) (s : Text) (f : Nat) (hf : 3 * s.length + 3 ≤ f) : parseTerm po f s ≠ .oof :=
+  parseTerm_fuel po s f hf
+theorem parse_arguments_terminates (po : POps) (s : Text) (f : Nat) (hf : 3 * s.length + 3 ≤ f) : parseArguments po f s ≠ .oof :=
+  parseArguments_fuel po s f hf
+theorem parse_linked_list_terminates (po : POps) (s : Text) (f : Nat) (hf : 3 * s.length + 1 ≤ f) : parseLinkedList po f s ≠ .oof :=
+  parseLinkedList_fuel po s f hf
+theorem parse_complex_terminates (po : POps) (s : Text) (f : Nat) (hf : 3 * s.length ≤ f) : parseComplex po f s ≠ .oof :=
+  parseComplex_fuel po s f hf
+theorem parse_function_terminates (po : POps) (s : Text) (f : Nat) (hf : 3 * s.length ≤ f) : parseFunction po f s ≠ .oof :=
+  parseFunction_fuel po s f hf
+theorem parse_query_terminates (po : POps) (s : Text) (f : Nat) (hf : 3 * s.length ≤ f) : parseQuery po f s ≠ .oof :=
+  parseQuery_fuel po s f hf
+theorem parse_subgoal_terminates (po : POps) (s : Text) (f : Nat) (hf : 3 * s.length + 4 ≤ f) : parseSubgoal po f s ≠ .oof :=
+  parseSubgoal_fuel po s f hf
+/-- the tokenizer returns (its loop index grows with every iteration) -/
+theorem tokenize_terminates (s : Text) : tokenize s ≠ .oof := tokenize_ne_oof s
+/-- group_tokens returns with the fuel generate_goal gives it: a nested call stops at or behind the index it started from -/
+theorem group_tokens_terminates (tokens : List Token) : groupTokens tokens (tokens.length + 2) 0 [] ≠ .oof :=
+  groupTokens_ne_oof tokens _ _ _ (by omega) (by omega)
+/-- generate_goal returns for every input -/
+theorem generate_goal_terminates (po : POps) (s : Text) : ∃ f0, ∀ f, f0 ≤ f → generateGoal po f s ≠ .oof :=
+  generateGoal_terminates po s
+/-- parse_rule returns for every input -/
+theorem parse_rule_terminates (po : POps) (s : Text) : ∃ f0, ∀ f, f0 ≤ f → parseRule po f s ≠ .oof :=
+  parseRule_terminates po s
+/-- and what it returns does not depend on the fuel -/
+theorem parse_rule_outcome_unique (po : POps) (s : Text) (f f' : Nat) (h : parseRule po f s ≠ .oof) (h' : parseRule po f' s ≠ .oof) :
+    parseRule po f s = parseRule po f' s := parseRule_unique po s f f' h h'
+theorem parse_term_outcome_unique (po : POps) (s : Text) (f f' : Nat) (h : parseTerm po f s ≠ .oof) (h' : parseTerm po f' s ≠ .oof) :
+    parseTerm po f s = parseTerm po f' s := parseTerm_unique po s f f' h h'
 
 /-! non-vacuity / witnesses: the inputs on which the pinned tree panicked are errors in the model of
     the repaired code, and ordinary inputs parse -/
